@@ -18,11 +18,18 @@
 //!   COMPL text   `Shell::complete` at every cursor
 //!   PROMPT text  PS1=text; `compose_prompt`
 //!   EXPAND text  `basic_expand_string` (caller guarantees no command substitution)
+//!   RUN script / RUNI script   a script of builtins in-process (output discarded, stdin /dev/null)
+//!   COMPL2 setup line / COMPL2B setup line   `Shell::complete` with registered specs at every char boundary / byte
 use std::io::Write as _;
 use std::panic::AssertUnwindSafe;
 use std::sync::atomic::{AtomicU64, Ordering};
 use std::sync::Mutex;
 use vh::{esc, fields, sq};
+
+/// Every response line starts with this marker (after a line break of its own): code under test may
+/// write to the process's stdout directly (a completion function that prints, `compgen -C`), and such
+/// stray text must not be taken for — or glued to — a response.
+const MARK: &str = "@@C01@@ ";
 
 static CASE_STARTED_MS: AtomicU64 = AtomicU64::new(0);
 static LAST_PANIC: Mutex<String> = Mutex::new(String::new());
@@ -285,6 +292,47 @@ async fn one(cx: &Cx, f: &[String]) -> String {
             }
             r
         }
+        ("RUN", 2) | ("RUNI", 2) => {
+            // a script of builtins, in-process; its output must not reach the protocol stream and it must
+            // not read the request lines. RUNI: in the interactive shell (history, completion specs).
+            let mut sh = if op == "RUNI" { cx.hist.clone() } else { cx.base.clone() };
+            if op == "RUNI" {
+                for i in 0..3 {
+                    let _ = sh.add_to_history(&format!("cmd{i}"));
+                }
+            }
+            let script = format!("{{\n{}\n}} >/dev/null 2>&1 </dev/null", f[1]);
+            match vh::run(&mut sh, &script).await {
+                Ok(st) => format!("OK {st}"),
+                Err(_) => "ERR".into(),
+            }
+        }
+        ("COMPL2", 3) | ("COMPL2B", 3) => {
+            // completion at a cursor with registered specs: f[1] = setup (complete …, functions), f[2] = line.
+            // COMPL2: every char boundary; COMPL2B: every byte offset (also inside multi-byte characters).
+            let mut sh = cx.hist.clone();
+            let setup = format!("{{\n{}\n}} >/dev/null 2>&1 </dev/null", f[1]);
+            if vh::run(&mut sh, &setup).await.is_err() {
+                return "SETUP-ERR".into();
+            }
+            let line = &f[2];
+            let positions: Vec<usize> = if op == "COMPL2B" { (0..=line.len()).collect() } else { cursors(line) };
+            let mut ok = 0usize;
+            let mut bad = String::new();
+            for c in positions {
+                if let Ok(cs) = sh.complete(line, c).await {
+                    ok += 1;
+                    let end = cs.insertion_index.checked_add(cs.delete_count);
+                    let fine = cs.insertion_index <= line.len()
+                        && end.is_some_and(|e| e <= line.len() && line.is_char_boundary(e))
+                        && line.is_char_boundary(cs.insertion_index);
+                    if !fine && bad.is_empty() && line.is_char_boundary(c) {
+                        bad = format!(" RANGE {c} {} {}", cs.insertion_index, cs.delete_count);
+                    }
+                }
+            }
+            format!("OK {ok}{bad}")
+        }
         ("COMPL", 2) => {
             let mut sh = cx.hist.clone();
             let line = &f[1];
@@ -401,7 +449,7 @@ fn main() {
             let wall = now_ms().saturating_sub(t);
             if cpu > limit || wall > limit * 15 {
                 // the stuck case gets its response line here; stdout is line-flushed by the main loop
-                println!("HANG {}", STAGE.lock().map(|g| *g).unwrap_or(""));
+                println!("\n{MARK}HANG {}", STAGE.lock().map(|g| *g).unwrap_or(""));
                 let _ = std::io::stdout().flush();
                 std::process::exit(3);
             }
@@ -421,7 +469,7 @@ fn main() {
         let f = fields(&line);
         // `fields` drops empty tokens; an empty field is sent as "%" and unescaped to ""
         if f.is_empty() {
-            println!("BAD-REQUEST");
+            println!("\n{MARK}BAD-REQUEST");
             continue;
         }
         let _ = take_panic();
@@ -437,7 +485,7 @@ fn main() {
             Ok(s) => s,
             Err(_) => format!("PANIC {}", take_panic()),
         };
-        println!("{out}");
+        println!("\n{MARK}{out}");
         let _ = std::io::stdout().flush();
     }
     let _ = std::env::set_current_dir("/");
